@@ -242,3 +242,28 @@ Example quota_example :
   | None => False
   end.
 Proof. vm_compute. auto. Qed.
+
+(* pinned code (before commit 78b7ad8): the only child has a guarantee for r1 only, so r0 is not limited at all and more
+   r0 is claimed than the parent exceeds its maximum by (top preemptable {r0:2, r1:10}, claimed {r0:16, r1:10}) *)
+Definition qs_pod (k : N) (age : Z) : alloc := mkA k 0%N 2%N 0%N (Some [(0%N, 8); (1%N, 5)]) 0 false false false false false age.
+Definition qs_parent : queue :=
+  mkQ 1%N (Some 0%N) (qp_root ++ [46;112]%N) false true None (Some [(0%N, 30); (1%N, 10)]) (Some [(0%N, 32); (1%N, 20)]) (Some []) 0%N 0%N 0 30000.
+Definition qs_leaf : queue :=
+  mkQ 2%N (Some 1%N) (qp_root ++ [46;112;46;99]%N) true true (Some [(1%N, 2)]) None (Some [(0%N, 32); (1%N, 20)]) (Some []) 0%N 0%N 0 30000.
+Definition qs_world : world :=
+  mkW [mkQ 0%N None qp_root false true None None (Some [(0%N, 32); (1%N, 20)]) (Some []) 0%N 0%N 0 30000; qs_parent; qs_leaf]
+      [qs_pod 0%N 10; qs_pod 1%N 11; qs_pod 2%N 12; qs_pod 3%N 13]
+      (mkK 1000%N 0%N 2%N (Some [(0%N, 1)]) 0 true None false 1000000 None)
+      [mkNd 0%N (Some [(0%N, 28); (1%N, 40)]) (Some [(0%N, 60); (1%N, 60)]) true] 15000 [] false.
+Theorem claimed_le_excess_pinned_refuted :
+  exists w q lq p order, wf_world w = true /\ In q (w_queues w) /\ In lq (w_queues w) /\
+    quota_contextsF true w q = QVal [(q_id lq, p)] /\ quota_order_ok w lq p order = true /\
+    claimed_within (setPreemptable w q) (lo_claimed (quota_leaf_order w lq p order)) = false.
+Proof.
+  exists qs_world, qs_parent, qs_leaf, (Some [(1%N, 10)]), [3%N; 2%N; 1%N; 0%N]. vm_compute. repeat split; auto.
+Qed.
+(* the fixed code gives the child a share for both types; no pod fits the r0 share, nothing is preempted *)
+Example claimed_le_excess_fixed_example :
+  quota_contexts qs_world qs_parent = QVal [(2%N, Some [(1%N, 10); (0%N, 2)])] /\
+  lo_victims (quota_leaf_order qs_world qs_leaf (Some [(1%N, 10); (0%N, 2)]) [3%N; 2%N; 1%N; 0%N]) = [].
+Proof. vm_compute. auto. Qed.
